@@ -14,7 +14,14 @@ pub fn rand_int_vec(rng: &mut Rng, n: usize) -> Array1<f64> {
 }
 
 pub fn rand_mat(rng: &mut Rng, rows: usize, cols: usize) -> Array2<f64> {
-    let mut m = Array2::zeros((rows, cols));
+    // one matrix in four is stored column-major (what `.t().to_owned()`, Fortran-order `.npy` files and
+    // `from_shape_vec(.f())` produce): nothing in the crate may depend on the memory layout
+    let mut m = if rng.chance(1, 4) {
+        use ndarray::ShapeBuilder;
+        Array2::zeros((rows, cols).f())
+    } else {
+        Array2::zeros((rows, cols))
+    };
     for i in 0..rows {
         for j in 0..cols {
             m[[i, j]] = rng.lat();
@@ -52,7 +59,17 @@ pub fn rand_pred(rng: &mut Rng, rows: usize, cols: usize, hint: Option<&AffFunc>
                         for j in 0..cols {
                             f.mat[[i, j]] = s * h.mat[[k, j]];
                         }
-                        f.bias[i] = s * h.bias[k] + if rng.chance(1, 2) { 0.0 } else { rng.lat_int() };
+                        // shifted copies: by nothing, by an integer, or by a hair (2^-21 ≈ 4.8e-7, 2^-25 ≈ 3e-8): slabs and
+                        // gaps that are thin but wider than the tolerance 1e-8 of `Polytope::contains`
+                        f.bias[i] = s * h.bias[k]
+                            + match rng.below(8) {
+                                0..=2 => 0.0,
+                                3..=6 => rng.lat_int(),
+                                _ => {
+                                    let g = if rng.chance(1, 2) { (2.0f64).powi(-21) } else { (2.0f64).powi(-25) };
+                                    if rng.chance(1, 2) { g } else { -g }
+                                }
+                            };
                     }
                 }
             }
@@ -60,6 +77,17 @@ pub fn rand_pred(rng: &mut Rng, rows: usize, cols: usize, hint: Option<&AffFunc>
         }
     }
     f
+}
+
+/// the next representable number above / below `v` (2^-60 away from zero): a near miss of a breakpoint, decided by
+/// the sign of the predicate and not by any tolerance; exactly representable, so the exact model evaluates it too
+pub fn nudge(v: f64, up: bool) -> f64 {
+    if v == 0.0 {
+        return if up { (2.0f64).powi(-60) } else { -(2.0f64).powi(-60) };
+    }
+    let bits = v.to_bits();
+    let away = (v > 0.0) == up;
+    f64::from_bits(if away { bits + 1 } else { bits - 1 })
 }
 
 pub struct TreeParams {
@@ -162,6 +190,19 @@ pub fn rand_tree<const K: usize>(rng: &mut Rng, p: &TreeParams) -> AffTree<K> {
             grow(rng, &mut t, p, pal, edge.source_idx, edge.label, depth);
         }
     }
+    if p.partial16 > 0 && rng.chance(1, 3) {
+        // partial by *removal*: drop one child of a decision that keeps another child (no regrowth)
+        let cands: Vec<(usize, usize)> = t
+            .tree
+            .node_indices()
+            .filter(|i| t.tree.num_children(*i) >= 2)
+            .flat_map(|i| t.tree.children(i).map(move |e| (i, e.label)).collect::<Vec<_>>())
+            .collect();
+        if !cands.is_empty() {
+            let (parent, label) = *rng.pick(&cands);
+            t.tree.remove_child(parent, label);
+        }
+    }
     t
 }
 
@@ -196,8 +237,17 @@ pub fn rand_points<const K: usize>(rng: &mut Rng, t: &AffTree<K>, n: usize) -> V
     let dim = t.in_dim();
     let decisions: Vec<AffFunc> = t.tree.decisions().map(|d| d.value.aff.clone()).collect();
     let mut pts = Vec::new();
+    // at most one near miss per call, in a quarter of the calls: the values at such an input are rounded, which makes the
+    // whole case INEXACT for the value comparison (differences are still reported)
+    let mut near_miss = rng.chance(1, 4);
     for _ in 0..n {
         let mut x = rand_int_vec(rng, dim);
+        if near_miss && rng.chance(1, 2) {
+            // all other coordinates zero: the products stay exact in binary64
+            for k in 0..dim {
+                x[k] = 0.0;
+            }
+        }
         if !decisions.is_empty() && rng.chance(1, 2) {
             // move x onto the hyperplane of a random row: find coordinate with coefficient ±1, ±1/2, …
             let d = rng.pick(&decisions);
@@ -211,6 +261,12 @@ pub fn rand_points<const K: usize>(rng: &mut Rng, t: &AffTree<K>, n: usize) -> V
                         // keep only exactly representable small dyadics
                         if (v * 64.0).fract() == 0.0 && v.abs() < 1024.0 {
                             x[j] = v;
+                            // a near miss: 2^-60 off the hyperplane (exactly representable next to small values),
+                            // so that the predicate is decided by its sign and not by a tolerance
+                            if near_miss {
+                                x[j] = nudge(v, rng.chance(1, 2));
+                                near_miss = false;
+                            }
                         }
                         break;
                     }
